@@ -46,7 +46,8 @@ def sort_case(draw, tier, max_records=60, force_all_ref=None):
             d_["sn"] = ren.get(d_["sn"], d_["sn"])
     ids = list(g["nodes"])
     untag = draw(st.lists(st.sampled_from(ids), max_size=max(1, len(ids) // 5), unique=True))
-    extra = c08.tag_graph(g, untag, no_scale=draw(st.sampled_from([1, 1, 5])), bo_scale=draw(st.sampled_from([1, 1, 11])))
+    extra = c08.tag_graph(g, untag, no_scale=draw(st.sampled_from([1, 1, 5])), bo_scale=draw(st.sampled_from([1, 1, 11])),
+                           plus=draw(st.integers(0, 5)) == 0)
     lm = models.LinkModel(g["links"])
     big = draw(st.integers(0, 5)) == 0
     n = draw(st.integers(12, max_records)) if big else draw(st.integers(1, min(max_records, 25)))
